@@ -28,7 +28,7 @@ Resolve(arg, N) == IF arg = 0 THEN N ELSE IF arg = 1 THEN Pow2AtLeast(1, N) ELSE
 
 SetterOps == {"SetData", "SetNFFT", "SetSampling", "SetSides", "SetWindow", "SetLag",
               "SetDetrend", "SetScale", "SetArOrder", "SetMaOrder"}
-ComputeOps == {"Call", "ReadPsd"}
+ComputeOps == {"Call", "ReadPsd", "GetConverted"}   \* GetConverted(s): get_converted_psd(s), a read in another layout
 
 SidesMayReset(a) == {a, [a EXCEPT !.sides = DefaultSides(a.dt)]}
 
